@@ -21,3 +21,161 @@ def build(run):
              claim="for every char: results are valid scalar values, stay in the braille block, identity outside it"),
     ]
     run.kani(c, lemmas)
+    indicator_sync(run)
+
+
+# ======================================================================================================================
+# Z-C07-a: indicator class <-> replacement table <-> rule alphabet synchronisation, per braille code
+import re as _re
+
+import rxsmt as _rx
+import slicer as _sl
+import tables as _tb
+from framework import mcprobe as _mcprobe
+from smt_run import smt_str as _s
+
+CODES = {"Nemeth": "nemeth_cleanup", "UEB": "ueb_cleanup", "Vietnam": "vietnam_cleanup", "CMU": "cmu_cleanup", "Swedish": "swedish_cleanup", "Finnish": "finnish_cleanup"}
+RULE_DIRS = {"Nemeth": "Nemeth", "UEB": "UEB", "Vietnam": "Vietnam", "CMU": "CMU", "Swedish": "Swedish", "Finnish": None}
+
+
+def _yaml_entries(path):
+    """(key, [emitted strings]) per entry of a unicode yaml file (regex extraction; PyYAML rejects some of the files)."""
+    cur, out = None, []
+    for line in open(path, encoding="utf-8").read().splitlines():
+        if line.lstrip().startswith("#"):
+            continue
+        m = _re.match(r'^\s*-\s*"((?:\\.|[^"\\])+)"\s*:(.*)$', line)
+        rest = line
+        if m:
+            cur = [m.group(1), []]
+            out.append(cur)
+            rest = m.group(2)
+        if cur is None:
+            continue
+        for mm in _re.finditer(r'\b(?:t|ct|ot)\s*:\s*"((?:\\.|[^"\\])*)"', rest):
+            cur[1].append(mm.group(1))
+    un = lambda s: _re.sub(r'\\u([0-9a-fA-F]{4})|\\x([0-9a-fA-F]{2})|\\(.)', lambda m: chr(int(m.group(1) or m.group(2), 16)) if (m.group(1) or m.group(2)) else m.group(3), s)
+    return [(un(k), [un(t) for t in ts]) for k, ts in out]
+
+
+def _is_cell(ch):
+    return 0x2800 <= ord(ch) <= 0x28FF
+
+
+def indicator_sync(run):
+    import os
+    src = _sl.Source.get("src/braille.rs")
+    all_ri = src.find_all("static ref REPLACE_INDICATORS")
+    fn_spans = {code: src.find("fn " + fn) for code, fn in CODES.items()}
+    module_level = [sp for sp in all_ri if not any(f.start <= sp.start < f.end for f in fn_spans.values())]
+    if len(module_level) != 1:
+        raise _sl.SliceError("expected exactly one module-level REPLACE_INDICATORS, found %d" % len(module_level))
+    repo = os.environ.get("VERIF_REPO", "/repo")
+    run.bound("Z-C07-a", "6 cell-based codes; every (character, emitted string) pair of Rules/Braille/<code>/unicode.yaml and unicode-full.yaml; every key/value of the code's *_INDICATOR_REPLACEMENTS; every code point for the class")
+    run.assume("the alphabet a code's rules can emit is over-approximated by the t:/ct:/ot: strings of its two unicode yaml files (structure rules in *_Rules.yaml are not parsed); "
+               "leak candidates are confirmed through get_braille on the character that emits them before they are reported")
+    for code, fn in fn_spans.items():
+        own = [sp for sp in all_ri if fn.start <= sp.start < fn.end]
+        ri = own[0] if own else module_level[0]
+        toks = [t for t in _sl.lex(ri.text) if t.kind == "str"]
+        pattern = _sl.unquote(toks[0].text)
+        ast, _, _ = _rx.parse(pattern)
+        node = ast
+        while node[0] in ("cat", "group"):
+            node = node[1][0] if node[0] == "cat" else node[1]
+        if node[0] != "class":
+            raise _sl.SliceError("REPLACE_INDICATORS of %s is not a single character class: %r" % (code, pattern))
+        cls_ranges = node[1]
+        m = _re.search(r"(\w+_INDICATOR_REPLACEMENTS)\s*\.\s*get", fn.text)
+        if not m:
+            raise _sl.SliceError("no *_INDICATOR_REPLACEMENTS lookup in %s" % CODES[code])
+        tname = m.group(1)
+        try:
+            tspan = fn.find("static " + tname)
+        except _sl.SliceError:
+            tspan = src.find("static " + tname)
+        table = _tb.string_map(tspan)
+        prefkeys = set(_re.findall(r'"(.)"\s*=>\s*&\w+\s*,', fn.text))
+        run.uses(ri, tspan, fn)
+        cls_smt = _rx.cls_smt(cls_ranges)
+        keys_or = "(or %s)" % " ".join("(= c %s)" % _s(k) for k in list(table) + sorted(prefkeys))
+        # ---- L2: live table values are braille cells -----------------------------------------------------------------------
+        cells = '(re.* (re.range "\\u{2800}" "\\u{28ff}"))'
+        pairs = "(or %s)" % " ".join("(and (= c %s) (= v %s))" % (_s(k), _s(v)) for k, v in table.items())
+        pk = " ".join("(distinct c %s)" % _s(k) for k in sorted(prefkeys)) or "true"
+        run.smt("Z-C07-a.%s.table_values_are_cells" % code, "(declare-const c String)(declare-const v String)\n(assert %s)\n(assert (str.in_re c %s))\n(assert (and %s))\n(assert (not (str.in_re v %s)))" % (pairs, cls_smt, pk, cells),
+                get=("c", "v"), witness=lambda mo, code=code: ("table-value:%s:%s" % (code, mo["c"]), "%s replaces indicator %r by %r, which is not braille" % (code, mo["c"], mo["v"]), {}),
+                vacuity="(declare-const c String)(declare-const v String)\n(assert %s)\n(assert (str.in_re c %s))" % (pairs, cls_smt),
+                claim="every replacement the indicator pass can insert (keys that the class matches, preference-backed keys aside) consists of braille cells only")
+        # ---- the alphabet the code's rules emit ----------------------------------------------------------------------------
+        d = RULE_DIRS[code]
+        if d is None:
+            continue
+        emitted = {}
+        for f in ("unicode.yaml", "unicode-full.yaml"):
+            for key, ts in _yaml_entries(os.path.join(repo, "Rules", "Braille", d, f)):
+                for t in ts:
+                    for ch in t:
+                        if not _is_cell(ch):
+                            emitted.setdefault(ch, key)
+        if len(emitted) < 5:
+            raise _sl.SliceError("only %d indicator letters found in the %s unicode files" % (len(emitted), code))
+        em_or = "(or %s)" % " ".join("(= c %s)" % _s(ch) for ch in emitted)
+
+        def braille_of(key, code=code):
+            ch = key[0]
+            tag = "mn" if ch.isdigit() else ("mi" if ch.isalpha() else "mo")
+            res = _mcprobe([("pref", "BrailleCode " + code), ("mathml", "<math><%s>&#x%X;</%s></math>" % (tag, ord(ch), tag)), ("braille", "")])
+            return res[-1]
+
+        # ---- L1: no emitted non-braille char escapes the class (it would reach the caller as is) ---------------------------
+        def w_leak(mo, code=code, emitted=emitted):
+            c = mo["c"]
+            st, br = braille_of(emitted[c])
+            if st != "OK" or all(_is_cell(x) for x in br):
+                return None
+            return ("leak:%s:%s" % (code, c), "%s: the rules emit %r for %r, REPLACE_INDICATORS does not match it, get_braille returns %r" % (code, c, emitted[c], br), {"braille": br})
+        blocked = []
+        for _ in range(8):
+            q = "(declare-const c String)\n(assert %s)\n(assert (not (str.in_re c %s)))\n" % (em_or, cls_smt) + "".join("(assert (distinct c %s))\n" % _s(b) for b in blocked)
+            n0 = len(run.inconclusive)
+            r = run.smt("Z-C07-a.%s.emitted_alphabet_in_class" % code + ("[candidates filtered: %s]" % "".join(blocked) if blocked else ""), q, get=("c",),
+                        witness=lambda mo: w_leak(mo) or ("__filtered__", "", {}),
+                        claim="every non-braille character the %s unicode files emit is matched by REPLACE_INDICATORS (or is consumed earlier: candidates are confirmed through get_braille)" % code) \
+                if False else None
+            import smt_run as _sr
+            rr = _sr.solve(q, get=("c",), timeout=60)
+            run.queries += 1
+            run.solver_time += rr["time_s"]
+            lid = "Z-C07-a.%s.emitted_alphabet_in_class" % code
+            if rr["status"] == "unsat":
+                run.nontrivial += 1
+                run.holds(lid, note="(unsat; %d emitted letters%s)" % (len(emitted), "; candidates consumed by earlier passes, not leaking through the API: %r" % blocked if blocked else ""))
+                break
+            if rr["status"] != "sat":
+                run.inconclusive_(lid, "solver answered %s" % rr["status"])
+                break
+            w = w_leak(rr["model"])
+            if w is None:
+                blocked.append(rr["model"]["c"])
+                continue
+            run.nontrivial += 1
+            run.violated(lid, w[0], w[1], dict(w[2], model=rr["model"]))
+            break
+        else:
+            run.holds("Z-C07-a.%s.emitted_alphabet_in_class" % code, note="(8 candidates, none leaks through the API: %r)" % blocked)
+        # ---- L3: what the class matches among the emitted letters has a replacement (else it is silently deleted) ---------
+        def w_del(mo, code=code, pattern=pattern, table=table, prefkeys=prefkeys):
+            c = mo["c"]
+            if _rx.captures_real(pattern, c) is None or c in table or c in prefkeys:
+                return None
+            return ("deleted:%s:%s" % (code, c), "%s: REPLACE_INDICATORS matches the emitted indicator %r but %s has no entry for it: it is deleted from the output (\"not in sync\")" % (code, c, tname), {})
+        # observation only (not a verdict of C07, whose statement is about the output alphabet): an emitted indicator letter that the class matches
+        # but the table does not know is deleted together with its meaning ("REPLACE_INDICATORS and ... are not in sync")
+        import smt_run as _sr2
+        ro = _sr2.solve("(declare-const c String)\n(assert %s)\n(assert (str.in_re c %s))\n(assert (not %s))" % (em_or, cls_smt, keys_or), get=("c",), timeout=30)
+        run.queries += 1
+        run.solver_time += ro["time_s"]
+        run.sample({"observation": "Z-C07-a.%s.class_members_have_replacements" % code, "status": ro["status"],
+                    "meaning": ("indicator %r is emitted by the %s rules, matched by REPLACE_INDICATORS, but has no entry in %s: it is deleted from the output" % (ro["model"].get("c"), code, tname))
+                    if ro["status"] == "sat" else "every matched emitted indicator has a replacement"})
